@@ -149,6 +149,35 @@ def monitor_data(ctx, focus=None):
     return data
 
 
+def agent_data_model(ctx, attrs=('fit', 'position')):
+    """Model assumption of the IR semantics: assigning to Agent.fit / Agent.position stores the assigned value unchanged (SetFit,
+    CopyFit, CopyPos, Havoc ... are plain stores).  Checked on the source by translator T1 (the one C14 uses): the setter of each of
+    these attributes must have the recognised shape `validate*; self._x = x` and, as on the pinned tree, no clause at all.  When it has
+    not, the run monitor is focused on objectives with infinite values (what a `sanitising` setter would rewrite)."""
+    from translate import t1_guards
+    name = 'T1: the setters of Agent.%s store the assigned value unchanged (the plain stores of the IR semantics)' % ' / Agent.'.join(attrs)
+    try:
+        text, info, errors = t1_guards.generate(core.REPO)
+        bad = [e for e in errors if any(('Agent.%s' % a) in str(e.get('item')) for a in attrs)]
+        guards = {g['attr']: g for c in info['classes'] if c['name'] == 'Agent' for g in c['guards']}
+        for a in attrs:
+            g = guards.get(a)
+            if g is None or g.get('clauses') is None:
+                bad.append({'item': 'Agent.%s' % a, 'msg': 'setter not found / not of the recognised shape'})
+            elif g['clauses'] or g.get('pre'):
+                bad.append({'item': 'Agent.%s' % a, 'msg': 'setter validates (%d clauses): the IR treats it as a plain store' % len(g['clauses'])})
+        ok, detail = not bad, '; '.join('%s: %s' % (e.get('item'), e.get('msg')) for e in bad[:4])
+    except Exception as ex:  # noqa: BLE001
+        ok, detail = False, repr(ex)
+    ctx.oblige(name, ok, detail)
+    if not ok:
+        before = len(ctx.violations)
+        monitor_data(ctx, focus='opytimizer/core/agent.py:fit')
+        if any(v['found_input'] for v in ctx.violations[before:]):
+            ctx.explain('T1: the setters of Agent')
+    return ok
+
+
 def translation_failures(ctx, errors):
     """A program T2 could not translate: focus the run monitor on it; whatever it finds is the replay, otherwise the
     broken translation obligation itself is reported by ctx.finish (no-failing-input-found)."""
